@@ -280,6 +280,12 @@ def run_history(ctx, case):
         ctx.count("constructions")
     comp = None
     nested = None
+    if case["mode"] == "single" and observers and rng.random() < 0.5:
+        # a composite over one observer that covers only some feature types
+        comp = CompositeFeatureObserver(d, feature_observers=list(observers))
+        parts = list(observers)
+        check_composite(ctx, comp, parts, "initial (single component)")
+        ctx.count("single_component_composites")
     if case["mode"] != "single" and observers:
         comp = (CompositeFeatureObserver(d, feature_observers=observers)
                 if rng.random() < 0.5 else CompositeFeatureObserver(d))
